@@ -38,10 +38,14 @@
 //! Findings on the unchanged tree (all in space 5, all-true predicates that do not fit the
 //! gas limits): estimation ignores the predicate's run result, so an out-of-gas run is
 //! "estimated" as Ok and the estimated tx then fails verification
-//! (`C20:estimate-ok-verify-rejects:{sequential,parallel}:OutOfGas`), and the sequential
-//! path (shrinking global allowance) says Ok where the parallel path (min(per-predicate,
-//! per-tx) for everyone) says TransactionExceedsTotalGasAllowance
-//! (`C20:seq-vs-par:estimate-verdict:gas-limit`).
+//! (`C20:estimate-ok-verify-rejects:{sequential,parallel}:OutOfGas`, known findings; the
+//! last key component is the class of the verification error, so any other rejection
+//! reason gives a different key). Information only (the statement fixes seq == par for
+//! checking, not for the estimation verdict): the sequential path (shrinking global
+//! allowance) says Ok where the parallel path (min(per-predicate, per-tx) for everyone)
+//! says TransactionExceedsTotalGasAllowance — recorded under
+//! `info_seq_vs_par_estimation_verdict_gas_limit`. Per-input estimated gas must still be
+//! identical whenever both estimations succeed.
 //!
 //! Don't-cares: which error is reported; the state of a tx after a failed estimation;
 //! whether a tx that is all-true/exact is accepted (only stated via estimate=>verify);
@@ -433,6 +437,24 @@ impl V {
             (V::Ok(_), V::Err(_)) | (V::Err(_), V::Ok(_)) => Some("verdict"),
             _ => None,
         }
+    }
+}
+
+/// Sequential vs parallel ESTIMATION. The statement fixes seq == par only for checking; for
+/// estimation it fixes estimate => verify. So a differing Ok/Err verdict is recorded as
+/// information, while per-input gas (and total) must be identical when BOTH succeed.
+enum EstCmp {
+    Same,
+    InfoVerdict,
+    Viol(&'static str),
+}
+
+fn est_cmp(sv: &V, sg: &[u64], pv: &V, pg: &[u64]) -> EstCmp {
+    match sv.agrees(pv) {
+        Some("verdict") => EstCmp::InfoVerdict,
+        Some(w) => EstCmp::Viol(w),
+        None if sv.is_ok() && sg != pg => EstCmp::Viol("gas"),
+        None => EstCmp::Same,
     }
 }
 
@@ -1515,17 +1537,23 @@ fn sched_eval(roles: &[u8], env: &Env, ctx: &Ctx, acc: &mut Acc) {
                 if e.mismatch || e.created != n {
                     panic!("harness executor did not run the requested schedule (estimate)");
                 }
-                if let Some(w) = eseq.agrees(&e.v).or(if eseq.is_ok() && e.gas != eseq_gas { Some("gas") } else { None }) {
-                    acc.viol(
-                        format!("C20:seq-vs-par:estimate-{w}"),
-                        format!(
-                            "estimate_predicates {eseq:?} per-input {eseq_gas:?} vs estimate_predicates_async {:?} per-input {:?} under {}: {base}",
-                            e.v,
-                            e.gas,
-                            sched()
-                        ),
-                        case.clone(),
-                    );
+                let cmp_text = || {
+                    format!(
+                        "estimate_predicates {eseq:?} per-input {eseq_gas:?} vs estimate_predicates_async {:?} per-input {:?} under {}: {base}",
+                        e.v,
+                        e.gas,
+                        sched()
+                    )
+                };
+                match est_cmp(&eseq, &eseq_gas, &e.v, &e.gas) {
+                    EstCmp::Same => {}
+                    EstCmp::InfoVerdict => {
+                        acc.cnt("info_seq_vs_par_estimation_verdict_differs", 1);
+                        if acc.info.is_empty() {
+                            acc.info.push(json!({"observation": "sequential and parallel ESTIMATION verdicts differ (not fixed by the statement)", "case": cmp_text()}));
+                        }
+                    }
+                    EstCmp::Viol(w) => acc.viol(format!("C20:seq-vs-par:estimate-{w}"), cmp_text(), case.clone()),
                 }
                 distinct.insert(format!("e:{}:{:?}", e.v.label(), e.gas));
             }
@@ -1600,6 +1628,7 @@ fn part_sched(ctx: &Ctx, env: &Env) {
                "per_tx": "n! run orders x {completion, creation} result order x 3^n memory assignments, for check_predicates_async and estimate_predicates_async",
                "memory_kinds": MEM_NAMES, "counters": total}),
     );
+    ctx.set("info_seq_vs_par_estimation_verdict_sched", json!(info));
 }
 
 // ------------------------------------------------------------------ part 5: gas limits (allowance order)
@@ -1677,15 +1706,22 @@ fn limit_eval(roles: &[u8], extra: u64, pp: u64, env: &Env, ctx: &Ctx, acc: &mut
             let e = estimate_par(&tx0, &cpp, &env.tpl, perm, creation, &fresh);
             acc.evals += 1;
             acc.cnt("limit_schedules", 1);
-            if let Some(w) = eseq.agrees(&e.v).or(if eseq.is_ok() && e.gas != eseq_gas { Some("gas") } else { None }) {
-                acc.viol(
-                    format!("C20:seq-vs-par:estimate-{w}:gas-limit"),
-                    format!(
-                        "estimate_predicates {eseq:?} per-input {eseq_gas:?} vs estimate_predicates_async {:?} per-input {:?} (run order {perm:?}): {base}",
-                        e.v, e.gas
-                    ),
-                    case.clone(),
-                );
+            let cmp_text = || {
+                format!(
+                    "estimate_predicates {eseq:?} per-input {eseq_gas:?} vs estimate_predicates_async {:?} per-input {:?} (run order {perm:?}): {base}",
+                    e.v, e.gas
+                )
+            };
+            match est_cmp(&eseq, &eseq_gas, &e.v, &e.gas) {
+                EstCmp::Same => {}
+                EstCmp::InfoVerdict => {
+                    acc.cnt("info_seq_vs_par_estimation_verdict_differs", 1);
+                    if acc.info.is_empty() {
+                        acc.info.push(json!({"observation": "sequential and parallel ESTIMATION verdicts differ under tight gas limits (not fixed by the statement)",
+                                             "case": cmp_text(), "replay_case": case.clone()}));
+                    }
+                }
+                EstCmp::Viol(w) => acc.viol(format!("C20:seq-vs-par:estimate-{w}:gas-limit"), cmp_text(), case.clone()),
             }
             if par_first.is_none() {
                 par_first = Some((e.v.clone(), e.gas.clone()));
@@ -1779,6 +1815,12 @@ fn part_limit(ctx: &Ctx, env: &Env) {
                "grid": "max_gas_per_tx = base + T, T in {0,1,g_i-1,g_i,g_i+1,prefix sums -1/0/+1,2*sum,1e6}; max_gas_per_predicate in {1,g_i-1,g_i,1e6}",
                "per_point": "n! x 2 schedules for estimate_predicates_async and for check_predicates_async of each estimated tx", "counters": total}),
     );
+    ctx.set(
+        "info_seq_vs_par_estimation_verdict_gas_limit",
+        json!({"schedules_with_differing_verdict": total.get("info_seq_vs_par_estimation_verdict_differs").copied().unwrap_or(0),
+               "why": "run_predicates shrinks a global allowance (an out-of-gas run is estimated as Ok), run_predicate_async gives every predicate min(per-predicate, per-tx) and then fails on the total",
+               "first_examples": info}),
+    );
 }
 
 // ------------------------------------------------------------------ driver
@@ -1799,7 +1841,8 @@ fn explore(ctx: &Ctx) {
             "per-input gas left in a transaction after a FAILED estimation",
             "whether malleable-field / witness byte flips keep check_signatures Ok (C03's business; counted only)",
             "estimation returning Ok for predicates that are not true or whose owner is wrong (pinned by upstream tests; recorded under info_estimation_on_unverifiable)",
-            "acceptance of an all-true exact-gas transaction other than through estimate => verify"
+            "acceptance of an all-true exact-gas transaction other than through estimate => verify",
+            "Ok/Err verdict of sequential vs parallel ESTIMATION (only checking is required to agree); per-input gas is compared when both succeed"
         ]),
     );
     let env = Env::new();
